@@ -12,12 +12,14 @@ META = {
             "for all integers, bit-level reading of the masks, symmetric), C14_bodymask_complete (the body-level OR masks used by add_pair "
             "never reject a body pair containing a compatible geom pair), C14_sap_sound (every emitted pair has valid distinct ids and "
             "overlaps on all three axes, on the sweep axis in the rounded images), C14_sap_complete (every pair whose rounded images "
-            "overlap STRICTLY on the sweep axis and whose other-axis intervals overlap is emitted exactly once, in one orientation), "
-            "C14_sap_count (at most n(n-1)/2 pairs, so the buffer cut of mj_broadphase never truncates), C14_sap_order (the output is a "
-            "function of the input), C14_broadphase_complete (body pairs passing the filters whose boxes overlap strictly, or with an "
-            "always-colliding member, are in the broadphase output). C14_sap_tie_refuted: completeness is FALSE without strictness - when "
-            "rnd(max_i) = rnd(min_j) with i < j the pair is dropped although the un-rounded intervals overlap; the witness is replayed on "
-            "mj_SAP and end to end through mj_forward (two boxes penetrating by 1e-8: 0 contacts when the left body is declared first). "
+            "overlap on the sweep axis - non-strictly, hence every pair whose un-rounded intervals overlap, C14_sap_unrounded - and whose "
+            "other-axis intervals overlap is emitted exactly once, in one orientation; so the emitted set is exactly the overlapping set), "
+            "C14_sap_count (at most n(n-1)/2 pairs, so the buffer cut of mj_broadphase never truncates), C14_sap_order (emission order is "
+            "determined by the sorted entry list: by position of the second box's start, then of the first's), C14_broadphase_complete "
+            "(body pairs passing the filters whose boxes overlap, or with an always-colliding member, are in the broadphase output). "
+            "History: before /repo cb66bd0cb SAPcmp had no tie-break and the pair (i, j), i < j, was dropped when (float)max_i == "
+            "(float)min_j (completeness was refuted and replayed end to end: two boxes penetrating by 1e-8 gave 0 contacts); the model now "
+            "has the repaired comparison and the tie scenes are kept as fixed corpus cases (0 contacts there is an impl_violation). "
             "Tied to the code by exact correspondence with filterBitmask, filterBodyPair, canCollide, canCollide2, add_pair, mj_SAP (integer "
             "and float-tie-laden boxes, all three axes, maxpair cuts) and mj_broadphase (on generated scenes). Only observed, not proved: "
             "mj_collideTree / mj_collideOBB mid-phase, bounding-sphere filter, the explicit-pair merge loop of mj_collision, makeAAMM "
@@ -78,34 +80,30 @@ def ov(lo1, hi1, lo2, hi2, strict=False):
 
 
 def sap_oracle(boxes, axis, out):
-    """returns (ok, msg, ntie_drops): emitted pairs must be distinct unordered pairs, contain every pair that overlaps strictly in the
-    float images on the sweep axis and (non-strictly) on the other two, and only pairs overlapping non-strictly."""
+    """returns (ok, msg): emitted pairs must be distinct unordered pairs and (for well-formed sweep intervals) exactly the pairs that
+    overlap in the float images on the sweep axis and un-rounded on the other two (all non-strictly)."""
     n = len(boxes)
     ay, az = (1, 2) if axis == 0 else ((0, 2) if axis == 1 else (0, 1))
     seen = set()
     for (a, b) in out:
         if not (0 <= a < n and 0 <= b < n) or a == b:
-            return False, "bad ids %s" % ((a, b),), 0
+            return False, "bad ids %s" % ((a, b),)
         k = frozenset((a, b))
         if k in seen:
-            return False, "pair %s emitted twice" % ((a, b),), 0
+            return False, "pair %s emitted twice" % ((a, b),)
         seen.add(k)
-    drops = 0
     for a in range(n):
         for b in range(a + 1, n):
             (la, ha), (lb, hb) = boxes[a], boxes[b]
             yz = ov(la[ay], ha[ay], lb[ay], hb[ay]) and ov(la[az], ha[az], lb[az], hb[az])
-            rs = ov(f32(la[axis]), f32(ha[axis]), f32(lb[axis]), f32(hb[axis]), strict=True)
             rw = ov(f32(la[axis]), f32(ha[axis]), f32(lb[axis]), f32(hb[axis]))
             wf = la[axis] <= ha[axis] and lb[axis] <= hb[axis]
             k = frozenset((a, b))
             if k in seen and not (yz and (rw or not wf)):
-                return False, "pair %s emitted without overlap" % ((a, b),), 0
-            if wf and yz and rs and k not in seen:
-                return False, "pair %s overlaps strictly (rounded) but is missing" % ((a, b),), 0
-            if wf and yz and k not in seen and ov(la[axis], ha[axis], lb[axis], hb[axis], strict=True):
-                drops += 1
-    return True, "", drops
+                return False, "pair %s emitted without overlap" % ((a, b),)
+            if wf and yz and rw and k not in seen:
+                return False, "pair %s overlaps on all axes but is missing" % ((a, b),)
+    return True, ""
 
 
 def parse_scene(lines):
@@ -256,7 +254,7 @@ def run(ctx):
     for _ in range(2 if quick else 30):
         n = rng.randrange(30, 70)
         sapcases.append((rng.randrange(3), n * (n - 1) // 2, mkboxes(n, rng.choice(["int", "tie"]))))
-    # the witness of C14_sap_tie_refuted with real doubles: [0,1] and [1-2^-30, 2], both declaration orders
+    # float-tie corpus case with real doubles: [0,1] and [1-2^-30, 2], both declaration orders
     wit_a = ((0.0, 0.0, 0.0), (1.0, 1.0, 1.0))
     wit_b = ((1.0 - 2.0 ** -30, 0.0, 0.0), (2.0, 1.0, 1.0))
     iw = len(sapcases)
@@ -320,11 +318,8 @@ def run(ctx):
     flt_cases, add_cases, sap_cases, bp_cases = [], [], [], []
     fbpx_res = []
     flt_src, add_src, sap_src, bp_src = [], [], [], []
-    ntie_drops = 0
     nscene_pairs = 0
     nscene_nontriv = 0
-    tie_reported = False
-    sap_tie_case = None
     samples = []
     for ci, (c, o) in enumerate(zip(cmds, outs)):
         k, p = c
@@ -387,14 +382,10 @@ def run(ctx):
             prs = [tuple(map(int, x.split(":"))) for x in t[1:]]
             n = len(bs)
             if 0 <= axis <= 2 and mp >= 1 and (ret < mp or mp >= n * (n - 1) // 2):
-                ok, msg, drops = sap_oracle(bs, axis, prs)
+                ok, msg = sap_oracle(bs, axis, prs)
                 if not ok:
                     ctx.violation("impl_violation", {"op": "mj_SAP", "axis": axis, "maxpair": mp, "boxes": bs}, expected=msg, observed=prs,
                                   theorem="C14_sap_sound/C14_sap_complete", signature={"site": "mj_SAP", "class": "wrong_pair_set"})
-                if drops:
-                    ntie_drops += drops
-                    if sap_tie_case is None or len(bs) < len(sap_tie_case[0]):
-                        sap_tie_case = (bs, axis, prs)
             sap_cases.append(sap_lit(axis, mp, bs, ret, prs))
             sap_src.append(ci)
         elif k == "SCENE":
@@ -448,11 +439,10 @@ def run(ctx):
             if nc > 1:
                 a = sc["aamm"]
                 boxes = [((a[0 * nc + i], a[1 * nc + i], a[2 * nc + i]), (a[3 * nc + i], a[4 * nc + i], a[5 * nc + i])) for i in range(nc)]
-                ok, msg, drops = sap_oracle(boxes, 0, sc["S"][1])
+                ok, msg = sap_oracle(boxes, 0, sc["S"][1])
                 if not ok:
                     ctx.violation("impl_violation", dict(case, boxes=boxes), expected=msg, observed=sc["S"][1], theorem="C14_sap_complete",
                                   signature={"site": "mj_SAP", "class": "wrong_pair_set"})
-                ntie_drops += drops
                 sap_cases.append(sap_lit(0, nc * (nc - 1) // 2, boxes, sc["S"][0], sc["S"][1]))
                 sap_src.append(ci)
             if ds & (DSBL["CONTACT"] | DSBL["CONSTRAINT"]) == 0 or True:
@@ -473,25 +463,22 @@ def run(ctx):
             ncon, nar, sapn = int(t[2]), int(t[4]), int(t[8])
             dist = float.fromhex(t[6])
             if nar > 0 and ncon == 0:
-                tie_reported = True
                 ctx.violation("impl_violation",
                               {"op": "two free unit boxes along x through mj_forward", "x_left": x0, "penetration": pen,
                                "declaration_order": "left body first" if order == 0 else "right body first",
                                "narrow_phase_contacts": nar, "geom_distance": dist, "mj_SAP_pairs": sapn},
                               expected="%d contacts (narrow phase on the pair; the same scene with the bodies declared in the other order gives them)" % nar,
-                              observed="0 contacts: mj_SAP drops the body pair because (float)x_max(left) == (float)x_min(right) and the stable sort "
-                                       "puts the max entry of the lower id first",
-                              theorem="C14_sap_tie_refuted", signature={"site": "mj_SAP", "class": "float_tie_drops_overlapping_pair"})
-    # the SAP-level replay of the refuted-completeness witness
-    o_w = outs[[i for i, c in enumerate(cmds) if c[0] == "SAP"][iw]]
-    o_w2 = outs[[i for i, c in enumerate(cmds) if c[0] == "SAP"][iw + 1]]
-    if o_w.split()[:1] == ["0"] and o_w2.split()[:1] == ["1"]:
+                              observed="0 contacts: the body pair is dropped by the broad phase ((float)x_max(left) == (float)x_min(right): SAPcmp must "
+                                       "sort interval starts before ends on ties)",
+                              theorem="C14_sap_complete", signature={"site": "mj_SAP", "class": "float_tie_drops_overlapping_pair"})
+    # the SAP-level float-tie corpus case (former witness of the refuted completeness): both orders must report the pair
+    sap_idx = [i for i, c in enumerate(cmds) if c[0] == "SAP"]
+    o_w, o_w2 = outs[sap_idx[iw]], outs[sap_idx[iw + 1]]
+    if o_w.split()[:1] != ["1"] or o_w2.split()[:1] != ["1"]:
         ctx.violation("impl_violation",
                       {"op": "mj_SAP", "axis": 0, "boxes": [wit_a, wit_b], "note": "x intervals [0,1] and [1-2^-30,2] overlap by 2^-30; y,z = [0,1]"},
-                      expected="pair (0,1) (the same two boxes in the other order give 1 pair: %s)" % o_w2, observed="0 pairs",
-                      theorem="C14_sap_tie_refuted", signature={"site": "mj_SAP", "class": "float_tie_drops_overlapping_pair"})
-    elif not tie_reported:
-        ctx.cov["support"]["sap_tie_witness"] = "not reproduced: %r / %r" % (o_w, o_w2)
+                      expected="pair (0,1) in both declaration orders", observed={"order a,b": o_w, "order b,a": o_w2},
+                      theorem="C14_sap_complete", signature={"site": "mj_SAP", "class": "float_tie_drops_overlapping_pair"})
     # ---- model evaluation
     chk_flt = ("fun c => match c with (op, a, r) => "
                "let g := fun i => nth i a 0 in "
@@ -547,7 +534,6 @@ def run(ctx):
     ctx.cov["exhaustive_part"] = "mj_SAP: all %d sets of 2 or 3 intervals with ends in {0,1,2}" % nexh
     ctx.cov["correspondence_disagreements"] = nfail
     ctx.cov["support"]["scene_contact_pairs_checked"] = nscene_pairs
-    ctx.cov["support"]["sap_pairs_dropped_by_float_ties_in_random_cases"] = ntie_drops
     ctx.cov["explanation"] = ("filters, add_pair, mj_SAP and mj_broadphase compared exactly with the Coq model on %d + %d + %d + %d cases; "
                               "%d scenes compared with the brute-force oracle" % (len(flt_cases), len(add_cases), len(sap_cases), len(bp_cases),
                                                                                   sum(1 for c in cmds if c[0] == "SCENE")))
